@@ -67,6 +67,9 @@ func VerifC15AggregateProposals() {
 		owner := types.Owner(rt.U32("pair.owner"))
 		rt.Assume(owner == types.OWNER_MODULE || owner == types.OWNER_EXTERNAL)
 		p := types.NewTokenPair(common.BytesToAddress(rt.BytesN("pair.address", 20)), denoms, rt.Bool("pair.enabled"), owner)
+		for _, d := range denoms {
+			rt.Assume(d != "") // invariant: a registered denomination passed the metadata validation of its proposal (never empty)
+		}
 		k.SetTokenPair(ctx, p)
 		k.SetDenomsMap(ctx, p.Denoms, p.GetID())
 		k.SetERC20Map(ctx, p.GetERC20Contract(), p.GetID())
